@@ -87,7 +87,11 @@ Init == /\ pc = "fill" /\ keyKind \in KeyKinds /\ mode \in Modes /\ kinds \in Ba
                       ELSE IF UniformSim \/ Len(kinds) = 1 THEN {<<s, s>> : s \in SimPool}
                       ELSE {<<s, t>> : s \in SimPool, t \in SimPool})
         /\ cont = <<>> /\ i = 1 /\ feeAcc = 0 /\ out = <<>>
-SimOf(j) == Sims[IF j = 1 THEN simIx[1] ELSE simIx[2]]
+\* indices from 1000 on stand for a sweep of consumed gas, one unit apart, around the point where the fee of a single transfer needs one more
+\* byte for its own encoding (16383 -> 16384 mutez): a fee pays for the bytes of the fee
+SweepBase == 160700
+SimAt(ix) == IF ix < 1000 THEN Sims[ix] ELSE <<(SweepBase + ix - 1000) * 1000, 0, FALSE, 0>>
+SimOf(j) == SimAt(IF j = 1 THEN simIx[1] ELSE simIx[2])
 
 \* fill(): one content per step (fill_content with the replace_map in its order: counter, limits, then fee)
 FillStep ==
